@@ -305,7 +305,8 @@ pub struct BinaryExpr {
 
 impl fmt::Display for BinaryExpr {
     fn fmt(&self, f: &mut fmt::Formatter) -> fmt::Result {
-        write!(f, "{}{}{}", self.left, self.operator, self.right)
+        // parenthesised, so that the text can stand in for the expression anywhere (macro arguments)
+        write!(f, "({}{}{})", self.left, self.operator, self.right)
     }
 }
 
